@@ -140,7 +140,7 @@ def row(draw, lay):
     sub = draw(st.sampled_from([None] * 8 + [1, 4, 5, 9]))
     if sub and draw(st.booleans()):
         cents = draw(st.sampled_from([0, 0, 1, -1, 99]))  # amounts below one cent are amounts too: 0.004, 0.019, -0.011
-    r = {'kind': kind, 'date': d.isoformat(), 'unpadded': draw(st.booleans()), 'cents': cents, 'sub': sub, 'style': draw(amount_style),
+    r = {'kind': kind, 'date': d.isoformat(), 'date_pad': draw(st.sampled_from(['', '', '', ' ', '  '])), 'unpadded': draw(st.booleans()), 'cents': cents, 'sub': sub, 'style': draw(amount_style),
          'desc': draw(st.sampled_from(DESC_TEXT)), 'customs': {c: draw(st.sampled_from(DESC_TEXT + ['', ' ', 'WIRE', 'ACH-OUT'])) for c in lay['cols'] if c in CUSTOM_NAMES},
          'loc': draw(st.sampled_from(['', 'WA', 'Seattle, WA', ' NY '])), 'skip': draw(st.sampled_from(['', 'x', '1,5', 'ignored "q"']))}
     if kind == 'short':
@@ -201,7 +201,7 @@ def build(case):
         customs = {k: ('' if r['kind'] == 'empty_desc' else clean_for_dialect(v, dialect)) for k, v in r['customs'].items()}
         for c in lay['cols']:
             if c == 'date':
-                cells.append(r['bad'] if r['kind'] == 'bad_date' else date_cell(r, lay['datefmt']))
+                cells.append(r['bad'] if r['kind'] == 'bad_date' else r.get('date_pad', '') + date_cell(r, lay['datefmt']) + r.get('date_pad', ''))
             elif c == 'amount':
                 cells.append(r['bad'] if r['kind'] == 'bad_amount' else amt_text)
             elif c == 'description':
